@@ -231,10 +231,17 @@ def gen_config(cs, tier='quick', force=None):
         inputs.append(inp_)
     if force.get('inputs'):
         inputs = [dict(x) for x in force['inputs']]
+    c['special'] = None
+    if c['program'] == 'hip' and not force.get('inputs') and cs.choose(12, 'special') == 11:
+        # the -9999.0 exclusion rule of the summary
+        c['special'] = 'exclusion_rule'
+        inputs = [dict(WL.HIP_9999_INPUT)] + [i_ for i_ in inputs if i_['name'] == 'Reservoir Area' and not i_['edge']][:1]
     c['inputs'] = inputs
     nout = 1 + cs.choose(5, 'nout')
     on = list(outs)
     c['outputs'] = [on.pop(cs.choose(len(on), 'out')) for _ in range(nout)]
+    if c['special'] == 'exclusion_rule':
+        c['outputs'] = list(WL.HIP_9999_OUTPUTS) if cs.choose(2, 'sorder') == 0 else list(reversed(WL.HIP_9999_OUTPUTS))
     it = ITER_TABLE_HIP if hip else ITER_TABLE_GEO
     if tier == 'thorough':
         it = it + ([64, 100, 200] if hip else [12, 16])
@@ -272,6 +279,7 @@ def gen_config(cs, tier='quick', force=None):
             sp[i] = [1.0, 2.0, 4.0][cs.choose(3, 'speed')]
     c['speeds'] = sp
     c['pid_gap'] = [0, 0, 7, 40][cs.choose(4, 'pid_gap')]
+    c['clock0'] = cs.choose(1000, 'clock0s') + cs.choose(1000, 'clock0ms') / 1000.0
     c['faults'] = []
     if c['iter_fail']:
         c['faults'].append('iter_fail')
@@ -323,6 +331,8 @@ def settings_text(c):
 
 
 def base_text(c):
+    if c.get('special') == 'exclusion_rule':
+        return WL.HIP_9999_BASE
     if c['program'] == 'hip':
         return [WL.HIP_BASE, WL.HIP_BASE_2][c['base']]
     if c['program'] == 'hipold':
@@ -362,6 +372,8 @@ def run_one(payload):
                       short_write='short_write' in c['faults'], kill_plan=c.get('kill_plan'),
                       repo_src=REPO_SRC, step_cap=payload.get('step_cap', 300000), capture_copies=True, pid_gap=c.get('pid_gap', 0))
         k = K.Kernel(cs, simcfg, sandbox, run_seed=seed)
+        # the run starts at an arbitrary instant of the wall clock (second boundaries fall anywhere)
+        k.clock_offset = c.get('clock0', 0.0)
         k.rng_objects = _find_rng_objects()
         k.rng_finder = _find_rng_objects
         if 'stale_lock' in c:
